@@ -5,8 +5,9 @@ import json
 import os
 import sys
 
-from .. import aloop
+from .. import aloop, loader
 from ..framework import Prop, generic_shrink_list
+from . import c40_copier
 
 
 def _fmt(l):
@@ -33,7 +34,9 @@ class C40(Prop):
                   'but before resuming hands the weight back; after every step no waiter fits in the free value (the head is the smallest); '
                   'idle means full and nobody waiting. A concrete example shows that the pre-fix behaviour (cancelled entry left queued) '
                   'breaks the invariant on the 4-op witness. The model is tied to the real WeightedSemaphore by comparing (value, holders, '
-                  'waiter order) after every group of ops, including release+cancel issued in the same loop iteration.')
+                  'waiter order) after every group of ops, including release+cancel issued in the same loop iteration. Caller level (no theorem, '
+                  'oracle only): the real copier file / multi-part paths over one small semaphore keep buffers in flight <= budget and leave the '
+                  'semaphore full when all transfers have finished, under cancellation at every suspension and failing I/O.')
     level_note = ('Trusted: Lean kernel; the hand-written model WSem agrees with the Python class only as far as the correspondence cases '
                   'show; asyncio atomicity between awaits and its cancellation delivery (Task.cancel / _must_cancel) as implemented by CPython 3.12.')
     budget = {'quick': 5000, 'thorough': 40000}
@@ -44,8 +47,11 @@ class C40(Prop):
             'r=open its gate, f=open its gate with an exception, c=Task.cancel() issued directly, cs=Task.cancel() issued from a callback '
             'queued behind the other actions of the group; the actions of one group are issued without running the loop in between (same loop '
             'iteration), then the loop runs to quiescence and (sem.value, ids inside the body, order of sem.events, ids that hit the '
-            'assertion) is compared with the model; the oracle also looks at sem.value and the running bodies at every body entry; non-trivial = some acquire had to wait or some cancel was injected; distinct by full case')
-    trusted = ['harness/aloop.py deterministic event loop (real asyncio.SelectorEventLoop; ready queue never permuted)',
+            'assertion) is compared with the model; caller-level cases (kind=copier) drive the real SourceCopier file / multi-part paths of '
+            'several files over one small real WeightedSemaphore with gated in-memory I/O, cancellation at the j-th suspension and failing '
+            'I/O, and check from outside: buffers in flight <= budget, nobody stuck, value == max when all transfers are finished; the oracle also looks at sem.value and the running bodies at every body entry; non-trivial = some acquire had to wait or some cancel was injected; distinct by full case')
+    trusted = ['caller-level cases: harness/props/c40_copier.py in-memory file system (gated) standing for the AsyncFS the copier talks to',
+               'harness/aloop.py deterministic event loop (real asyncio.SelectorEventLoop; ready queue never permuted)',
                'sortedcontainers.SortedKeyList (real package)',
                'waiter order is read from sem.events through asyncio.Event._waiters / Task._fut_waiter (falls back to (weight, arrival))']
     assumptions = ['one event loop thread; code is atomic between awaits', 'a cancelled task does not suppress CancelledError inside the body']
@@ -57,6 +63,11 @@ class C40(Prop):
         spec.loader.exec_module(mod)     # stdlib + sortedcontainers only; loaded by path (hailtop/aiotools/__init__ pulls in cloud SDKs)
         self.Sem = mod.WeightedSemaphore
         self._info = {}
+        # caller level: the real copier (hailtop.aiotools.fs.copier) with its own import of WeightedSemaphore
+        loader.install(repo)
+        import hailtop.aiotools.fs.copier as copier_mod
+        self.copier_mod = copier_mod
+        self._cobs = {}
 
     # ---- generation (reference bookkeeping used ONLY to produce protocol-respecting ops; not the oracle) ----------------
     class _Sim:
@@ -250,17 +261,25 @@ class C40(Prop):
             # (exit;cancel / exit;cancel-soon / cancel;exit / exit;exit / exit;acquire / acquire;exit); shorter ones are prefixes
             for m, length in ((1, 5), (2, 4), (3, 4)):
                 yield from self._exhaustive(m, length, 4)
+            yield from c40_copier.exhaustive(1, 2, 3)
+            yield from c40_copier.exhaustive(2, 2, 4)
         else:
             for m in (1, 2):
                 yield from self._exhaustive(m, 4, 3)
+            yield from c40_copier.exhaustive(1, 2, 3)
         for _ in range(n):
             yield self._random_case(rng)
+        for _ in range(n // 5):
+            yield c40_copier.random_case(rng)       # caller level: the real copier's file / multi-part paths over the semaphore
 
     def search_cases(self, rng, n, hint):
         for m in (1, 2, 3):
             yield from self._exhaustive(m, 4, 3)
+        yield from c40_copier.exhaustive(1, 2, 3)
         for _ in range(n):
             yield self._random_case(rng)
+        for _ in range(n // 5):
+            yield c40_copier.random_case(rng)
 
     # ---- model ---------------------------------------------------------------------------------
     _NAMES = {'a': 'acquire', 'r': 'release', 'f': 'fail', 'c': 'cancel', 'cs': 'cancel'}
@@ -268,6 +287,8 @@ class C40(Prop):
     def model_lines(self, c):
         # `acquire i w j`: the task is cancelled at its j-th suspension (in the model: 1st = in `event.wait()` if it had to queue,
         # else at the gate inside the body; the fast path of `acquire` has no suspension point)
+        if c.get('kind') == 'copier':
+            return []          # caller-level case: no model lines, the oracle works on the observations of the real copier
         out = ['reset', f"max {c['max']}"]
         for g in c['groups']:
             out.append(';'.join(' '.join([self._NAMES[o[0]]] + [str(x) for x in o[1:]]) for o in self._ordered(g)))
@@ -285,7 +306,17 @@ class C40(Prop):
         except (AttributeError, TypeError, ValueError):
             return [i for _, _, i in sorted(arrival)]
 
+    def _copier_obs(self, c):
+        key = json.dumps(c, sort_keys=True)
+        if key not in self._cobs:
+            self._cobs[key] = c40_copier.observe(self.copier_mod, c)
+        return self._cobs[key]
+
     def impl(self, c):
+        if c.get('kind') == 'copier':
+            self._cobs.pop(json.dumps(c, sort_keys=True), None)
+            self._copier_obs(c)
+            return []
         s = aloop.Sched()
         all_tasks = []
         info = {'handback': 0, 'cancel_waiter': 0, 'cancel_holder': 0, 'queued': 0, 'same_iter': 0}
@@ -425,6 +456,8 @@ class C40(Prop):
     def oracle(self, c, out):
         if out and out[0].startswith('IMPL-EXC'):
             return out[0]
+        if c.get('kind') == 'copier':
+            return c40_copier.check(c, self._copier_obs(c))
         m = c['max']
         info = self._info.get(json.dumps(c, sort_keys=True)) or {}
         weights = {}
@@ -470,6 +503,25 @@ class C40(Prop):
 
     def classify(self, c, out):
         key = json.dumps(c, sort_keys=True)
+        if c.get('kind') == 'copier':
+            if out and out[0].startswith('IMPL-EXC'):
+                return (None, ['copier', 'copier-impl-exception'])
+            o = self._copier_obs(c)
+            tags = ['copier', f"copier-budget={c['budget'] // c['buf']}buf"]
+            need = sum(min(c['buf'], f['size']) if f['size'] <= c['part'] else c['buf'] for f in c['files'])
+            contended = need > c['budget']
+            tags.append('copier-contended' if contended else 'copier-uncontended')
+            if any(f['size'] > c['part'] for f in c['files']):
+                tags.append('copier-multi-part')
+            if o['cancel_before_first_fs_call']:
+                tags.append('copier-cancelled-before-first-fs-call(in-acquire-when-contended)')
+            if o['cancel_later']:
+                tags.append('copier-cancelled-while-holding-or-later')
+            if 'failed' in o['outcome']:
+                tags.append('copier-fs-operation-raised')
+            if o['peak'] == c['budget']:
+                tags.append('copier-budget-fully-used')
+            return (key if contended else None, tags)
         info = self._info.get(key) or {}
         tags = [f"groups={min(len(c['groups']), 14)}", f"max={c['max']}"]
         for k in ('queued', 'cancel_waiter', 'cancel_holder', 'same_iter'):
@@ -499,6 +551,17 @@ class C40(Prop):
     def shrink(self, c, fails):
         if not fails(c):
             return c
+        if c.get('kind') == 'copier':
+            files = generic_shrink_list(c['files'], lambda fs: fails({**c, 'files': fs}))
+            cur = {**c, 'files': files}
+            for i, f in enumerate(cur['files']):
+                for key in ('cancel', 'fail'):
+                    if key in f:
+                        f2 = {k: v for k, v in f.items() if k != key}
+                        cand = {**cur, 'files': cur['files'][:i] + [f2] + cur['files'][i + 1:]}
+                        if fails(cand):
+                            cur = cand
+            return cur
         groups = generic_shrink_list(c['groups'], lambda gs: fails({'max': c['max'], 'groups': gs}))
         # split groups into single ops where the failure survives
         changed = True
